@@ -43,10 +43,10 @@ MANIFEST = dict(
          'message are re-parsed), none when switched off. The model is compared with '
          'the real managers on generated and directed op sequences on every run; the Python monitor is the run-time oracle and its '
          'alive/known view is compared with the Lean monitor of the theorems after every op.',
-    note='Known (not repaired): Expires=PT0S is granted the maximum; filter entries match by suffix; an EndTo endpoint without reference '
-         'parameters is sent the NotifyTo ones. Repaired: sync manager '
+    note='Known (not repaired): Expires=PT0S is granted the maximum; filter entries match by suffix. Repaired: sync manager '
          'delivered after Unsubscribe; Renew/GetStatus/Unsubscribe were answered for an unsubscribed subscription; a non-xml answer of '
-         'one subscriber aborted the report distribution of the sync managers. The outcome of each delivery (incl. the state of the '
+         'one subscriber aborted the report distribution of the sync managers; an EndTo endpoint without reference parameters was sent the '
+         'NotifyTo ones. The outcome of each delivery (incl. the state of the '
          'pooled soap client) is an input of the model: theorems hold for every outcome assignment; pool behaviour is checked by the oracle. '
          'Trusted: harness (fake transport, virtual clock on a 10 ms raster), asyncio loop, lxml; thread interleavings of '
          'house-keeping vs. requests are not modelled (ops are atomic).',
